@@ -110,6 +110,32 @@ func (t *Truth) Translate(dx, dy int64) {
 	}
 }
 
+// TouchEdge translates the truth so that its extreme vertices lie exactly on the end of the
+// coordinate range: lon = 180, lon = -180, lat = 90, lat = -90, or a corner of the range.
+func (t *Truth) TouchEdge(r *gen.R) {
+	all := t.all()
+	minX, maxX, minY, maxY := all[0].X, all[0].X, all[0].Y, all[0].Y
+	for _, v := range all {
+		minX, maxX = min64(minX, v.X), max64(maxX, v.X)
+		minY, maxY = min64(minY, v.Y), max64(maxY, v.Y)
+	}
+	const lonMax, latMax = 1_800_000_000, 900_000_000
+	switch r.Intn(6) {
+	case 0:
+		t.Translate(lonMax-maxX, 0)
+	case 1:
+		t.Translate(-lonMax-minX, 0)
+	case 2:
+		t.Translate(0, latMax-maxY)
+	case 3:
+		t.Translate(0, -latMax-minY)
+	case 4:
+		t.Translate(lonMax-maxX, latMax-maxY)
+	default:
+		t.Translate(-lonMax-minX, -latMax-minY)
+	}
+}
+
 func (t *Truth) all() []Pt {
 	var out []Pt
 	for i := range t.Polys {
@@ -184,13 +210,15 @@ func tryGenerate(r *gen.R) (*Truth, float64) {
 	cells := r.Perm(9)[:k]
 	t := &Truth{}
 	var baseX, baseY float64
-	switch weighted(r, 75, 15, 10) {
+	switch weighted(r, 65, 15, 10, 10) {
 	case 0:
 		t.Origin = "far"
 	case 1:
 		t.Origin = "straddle"
-	default:
+	case 2:
 		t.Origin = "axis"
+	default:
+		t.Origin = "edge"
 	}
 	if t.Origin == "straddle" {
 		baseX, baseY = -r.Float64()*3*S, -r.Float64()*3*S
@@ -273,6 +301,9 @@ func tryGenerate(r *gen.R) (*Truth, float64) {
 		} else {
 			t.Translate(0, -v.Y)
 		}
+	}
+	if t.Origin == "edge" {
+		t.TouchEdge(r)
 	}
 	for guard := 0; guard < 8; guard++ {
 		hit := false
